@@ -33,7 +33,7 @@ def run_native(cases, repo=None, timeout=600):
 # ---------------------------------------------------------------------------- labels
 def lkey(e):
     """Canonical key of an encoded value under Python equality (True == 1 == 1.0)."""
-    if e[0] == "b":
+    if e[0] in ("b", "fi"):
         return json.dumps(["i", int(e[1])])
     if e[0] in ("fs", "set"):
         return json.dumps([e[0], sorted(lkey(x) for x in e[1])])
@@ -110,10 +110,10 @@ class Concrete:
         for k, i in self.id.items():
             e = self.by_key[k]
             t = e[0]
-            il = t in ("i", "b")
-            A += [c.intlike(i) == B(il), c.is_str(i) == B(t == "s"), c.is_tuple(i) == B(t == "t"),
+            il = t in ("i", "b", "fi")
+            A += [c.intlike(i) == B(il), c.is_int(i) == B(t in ("i", "b")), c.is_str(i) == B(t == "s"), c.is_tuple(i) == B(t == "t"),
                   c.is_list(i) == B(t == "l"), c.is_dict(i) == B(t == "d"),
-                  c.hashable(i) == B(self._hashable(e)), c.floatable(i) == B(t in ("i", "b", "f")),
+                  c.hashable(i) == B(self._hashable(e)), c.floatable(i) == B(t in ("i", "b", "f", "fi")),
                   c.iterable(i) == B(t in ("s", "t", "fs", "set", "l", "it", "d")), c.one_shot(i) == B(t == "it"),
                   c.truthy(i) == B(self._truthy(e))]
             if il:
@@ -169,7 +169,7 @@ class Concrete:
         t = e[0]
         if t == "n":
             return False
-        if t in ("i", "b", "f"):
+        if t in ("i", "b", "f", "fi"):
             return bool(e[1])
         if t == "it" or t == "o" or t == "x":
             return True
@@ -354,7 +354,7 @@ def model_to_case(spec, model, variant=None):
         if d["none"]:
             lab[i] = ["n"]
         elif d["intlike"]:
-            lab[i] = ["i", d["int_of"]]
+            lab[i] = ["i", d["int_of"]] if d.get("is_int", True) else ["fi", d["int_of"]]
         elif d["strlit"]:
             lab[i] = ["s", d["strlit"][0]]
         elif d["is_str"]:
